@@ -1,7 +1,8 @@
-// vgen: the translator. Reads /repo's current sources (go/parser) and regenerates the Coq
-// files under coq/Gen: constant tables the theorems quantify over, and structural facts
-// (write sites of package-level variables and receiver fields). Files are rewritten only
-// when their content changed, so an unchanged tree causes no Coq rebuild.
+// vgen: the translator. Reads /repo's current sources (go/parser, go/types) and regenerates
+// the Coq files under coq/Gen: constant tables the theorems quantify over, and structural
+// facts (write sites of package-level variables and receiver fields). Files are rewritten
+// only when their content changed, so an unchanged tree causes no Coq rebuild.
+// Each area adds a file gen_<area>.go with `func init() { register("<area>", fn) }`.
 package main
 
 import (
@@ -10,9 +11,16 @@ import (
 	"fmt"
 	"os"
 	"path/filepath"
+	"sort"
 )
 
 var repo, outDir string
+
+type genFn func() error
+
+var gens = map[string]genFn{}
+
+func register(name string, f genFn) { gens[name] = f }
 
 func writeIfChanged(name string, content []byte) {
 	p := filepath.Join(outDir, name)
@@ -30,8 +38,27 @@ func writeIfChanged(name string, content []byte) {
 func main() {
 	flag.StringVar(&repo, "repo", "/repo", "repository root")
 	flag.StringVar(&outDir, "out", "/verif/coq/Gen", "output directory")
+	only := flag.String("only", "", "run only this generator")
 	flag.Parse()
 	_ = os.MkdirAll(outDir, 0o755)
-	genTables()
-	genFacts()
+	var names []string
+	for n := range gens {
+		names = append(names, n)
+	}
+	sort.Strings(names)
+	failed := false
+	for _, n := range names {
+		if *only != "" && *only != n {
+			continue
+		}
+		if err := gens[n](); err != nil {
+			// A generator that cannot find its table (renamed, reshaped) writes nothing; the
+			// dependent Coq file then fails to build and bin/check reports the broken tie.
+			fmt.Fprintf(os.Stderr, "generator %s: %v\n", n, err)
+			failed = true
+		}
+	}
+	if failed {
+		os.Exit(1)
+	}
 }
